@@ -300,10 +300,13 @@ func (p *printVisitor) EnterOperationDefinition(ref int) {
 
 	hasName := p.document.OperationDefinitions[ref].Name.Length() > 0
 	hasVariables := p.document.OperationDefinitions[ref].HasVariableDefinitions
+	// the shorthand form (a bare selection set) cannot carry directives or a description
+	hasDirectives := p.document.OperationDefinitions[ref].HasDirectives
+	hasDescription := p.document.OperationDefinitions[ref].Description.IsDefined
 
 	switch p.document.OperationDefinitions[ref].OperationType {
 	case ast.OperationTypeQuery:
-		if hasName || hasVariables {
+		if hasName || hasVariables || hasDirectives || hasDescription {
 			p.write(literal.QUERY)
 		}
 	case ast.OperationTypeMutation:
